@@ -257,7 +257,7 @@ InitWith(f, np, ns) ==
 (* Bounded instance.  Payloads are abstract: <<>> (the zero message of     *)
 (* every type), <<10 + t, x>> (content x of type t), <<50, c>> (a Status   *)
 (* with code c), <<99>> (not protobuf at all).                             *)
-CONSTANTS NPk, NTy, NSl, FpIdx, MaxLen, MaxId, PureOps
+CONSTANTS NPk, NTy, NSl, FpIdx, MaxLen, MaxId, Parts     \* Parts \subseteq {"err", "reg", "pure"}
 
 FpTable == << <<0, 0, 0, 0>>, <<0, 0, 0, 1>>, <<0, 0, 0, 2>>, <<0, 0, 1, 0>>, <<2, 0, 0, 0>>, <<255, 255, 255, 255>> >>
 Packers == 1..NPk
@@ -298,7 +298,8 @@ PureActs ==
   \cup {UnmAct(p, api, tag, pl) : p \in Packers, api \in Apis, tag \in MTags, pl \in MPls}
   \cup [op : {"tor"}, hm : BOOLEAN, he : BOOLEAN, hs : BOOLEAN]
   \cup [op : {"toe"}, he : BOOLEAN, hs : BOOLEAN]
-Acts == ErrActs \cup RegActs \cup (IF PureOps THEN PureActs ELSE {})
+Acts == (IF "err" \in Parts THEN ErrActs ELSE {}) \cup (IF "reg" \in Parts THEN RegActs ELSE {})
+        \cup (IF "pure" \in Parts THEN PureActs ELSE {})
 
 Init == \E f \in [Types -> FpIdx] : InitWith([t \in Types |-> FpTable[f[t]]], NPk, NSl)
 Next == \E a \in Acts : Step(a)
